@@ -65,6 +65,10 @@ _MORE = {
  "C13": dict(cat="exploration", tech="multi-build differential: the same pipeline case list executed by three builds of the current tree (AVX2, SSE2-only, portable Go under js/wasm) plus an exhaustive-over-list GOOS/GOARCH compilation matrix",
    text="The harness is built three times from the current working tree - native amd64 (AVX2 kernels), amd64 with AVX2 detection forced off by an overlay (SSE2 kernels), and GOOS=js GOARCH=wasm executed under node (the files selected for non-assembly targets, i.e. the portable Go kernels) - and each build prints a digest for 260 pipeline cases (15 pictures x 14 option sets incl. every Method, sharp YUV, dithering, TargetSize; decode of the whole still corpus; playback of the animation corpus); the digests must be equal case by case. `go build` of every library package must succeed for 13 GOOS/GOARCH pairs (thorough: every pair the toolchain lists that builds without cgo).",
    note="arm64 assembly and 32-bit targets cannot be executed in this sandbox (compile-only); kernel inputs are those the pipeline cases reach; one open known finding (linux/s390x compiler error).", ref="3/C13"),
+
+ "C03": dict(cat="exploration", tech="exhaustive enumeration of syntax trees of a VP8L stream generator (full transform-order product, deviation-bounded feature menus) decoded by the real decoder and by two independent decoders",
+   text="A syntax-directed VP8L writer (own bit writer, canonical prefix codes, code-length coding, transforms, entropy image, colour caches, LZ77 programs) is driven by the explorer: the full product of all 65 ordered transform subsets x 13 dimensions x 2 tile sizes with at most one further deviation, and 10 orders x 5 dimensions with at most 2 (thorough 3) deviations from menus covering every predictor mode, multipliers, palette sizes and packings, cache sizes for every image level, meta prefix images, prefix-code shapes and 7 backward-reference programs incl. all 120 plane codes. Every stream is valid by construction; webp.Decode and lossless.DecodeVP8L must return exactly the pixels of the vendored x/image decoder, with libwebp arbitrating; a hang guard turns a non-terminating decode into a violation.",
+   note="A stream both references reject counts as a generator fault, one on which they disagree is dropped and counted (0 and 0 on the pinned tree); pictures are at most 33 px wide; deviations beyond the bound are not covered.", ref="3/C03"),
 }
 CHECKS.update(_MORE)
 NA = {}
